@@ -12,7 +12,8 @@ from . import report
 
 
 def write_not_analysed(prop, tier, msg, t0):
-    os.makedirs(os.path.join(factsmod.VERIF, "evidence"), exist_ok=True)
+    evdir = os.environ.get("ZV_EVIDENCE_DIR") or os.path.join(factsmod.VERIF, "evidence")
+    os.makedirs(evdir, exist_ok=True)
     ev = {
         "property_id": prop, "tier": tier, "seed": int(os.environ.get("VERIF_SEED", "0") or 0),
         "level": "other",
@@ -20,7 +21,7 @@ def write_not_analysed(prop, tier, msg, t0):
                      "samples": [{"note": "not analysed"}]},
         "wall_s": round(time.time() - t0, 2), "violations": 0, "status": "not-analysed",
     }
-    with open(os.path.join(factsmod.VERIF, "evidence", "%s.json" % prop), "w") as fh:
+    with open(os.path.join(evdir, "%s.json" % prop), "w") as fh:
         json.dump(ev, fh, indent=1)
 
 
